@@ -474,7 +474,11 @@ class NestedFrame(pd.DataFrame):
 
         # join the nested column to the base_column df
         if base_columns is not None:
-            return df[base_columns].join(packed_df)
+            # The packed column has the index of df itself, row for row: attach it by position.
+            # (An index join would multiply the rows that share a label.)
+            out_df = df[base_columns].copy()
+            out_df[name] = packed_df
+            return out_df
         # or just return the packed_df as a nestedframe if no base cols
         else:
             return NestedFrame(packed_df.to_frame())
